@@ -12,13 +12,13 @@ CLAIMED = {
    tech="AST->z3 VC generation, Hoare loop invariants, generator contracts (deductive)"),
  "C11": dict(cat="proof", ref="DESIGN.md 4/C11",
    text="Reader.open (flat + compressed branch), ns, rl, shape and OnlineReader.ns executed symbolically for every file size, channel count, item size, rate and announced duration: "
-        "memmap fits (no raise), ns == floor(bytes/frame), values are the file prefix, duration matches; the cached size of an online reader may be stale; both branches for both settings of ignore_warnings and any rate in the .ch header; a recording still being acquired (metadata without size / duration fields) opens (arguments of the dropped logging calls are evaluated: F-C11-2 found this way and repaired).",
+        "memmap fits (no raise), ns == floor(bytes/frame), values are the file prefix, duration matches; the cached size of an online reader may be stale; both branches for both settings of ignore_warnings and any rate in the .ch header; the compressed stream is opened once, on the reader's own file, with the header handed to the constructor; a recording still being acquired (metadata without size / duration fields) opens (arguments of the dropped logging calls are evaluated: F-C11-2 found this way and repaired).",
    note="A-FS (np.memmap semantics), A-REAL (the binary64 round trip ns->fileTimeSecs->ns is only checked natively, bounded), A-MTSCOMP for the stream length.",
    tech="AST->z3 VC generation with a ghost file system (deductive)"),
  "C10": dict(cat="proof", ref="DESIGN.md 4/C10",
    text="split_sync proved for a word array of any length: line k == bit k of the word for k=0..15 (integer div/mod arithmetic, complete over all 65536 words), 1-D and (n,1) inputs; "
         "fronts/rises/falls: soundness, polarity, order and completeness of the returned indices for 1-D and 2-D inputs along either axis; read_sync through the reader: digital layout (imec, nidq) and "
-        "analog lines thresholded per channel after removing that channel's own floor (1 and 2 analog sync channels, with 0..2 auxiliary analog channels saved before them); re-checks C09's channel-index / nidq calibration contracts it rests on.",
+        "analog lines thresholded per channel after removing that channel's own floor (1 and 2 analog sync channels, with 0..2 auxiliary analog channels saved before them), and thresholded as they are when the floor removal is switched off (floor_percentile 0 / False / None); re-checks C09's channel-index / nidq calibration contracts it rests on.",
    note="A-ENDIAN (asserted natively), A-NP-SPEC for unpackbits / where / diff, A-REAL for analog thresholds. Re-writes of split_sync outside the modelled NumPy subset degrade to the exhaustive native check of all 65536 words (bounded tier).",
    tech="AST->z3 VC generation, index-function arrays, where() specification axioms (deductive)"),
  "C01": dict(cat="other", ref="DESIGN.md 4/C01",
@@ -33,7 +33,7 @@ CLAIMED = {
    tech="AST->z3 VC generation over a symbolic metadata record (deductive) + bounded round-trip stand-in"),
  "C08": dict(cat="other", ref="DESIGN.md 4/C08",
    text="geometry_from_meta proved for site tables of any length in both encodings: the sort is a bijection moving every key together, ordered by (shank,row,-col); rc<->xy inverse on the three grids; the two encodings agree; split shank == restriction of the parent. "
-        "ADC tables and canonical layouts: exhaustive native enumeration of the finite configuration space (every version x shank count against a per-channel description).",
+        "ADC tables: decided by exhaustive evaluation of adc_shifts over its whole finite domain (5 versions x nc 1..384) against the per-channel formula, stated as obligations (complete, no solver); canonical layouts: exhaustive native enumeration (every version x shank count against a per-channel description).",
    note="A-NP-SPEC (lexsort, where), A-SGLX, map-string parsing summarised by contract. Known finding F-C08-1 (ADC delays for non-prefix channel subsets). History effects (caching across calls) only in the bounded stand-in (derives twice).",
    tech="AST->z3 VC generation with permutation/where specification axioms (deductive) + exhaustive enumeration of tables"),
  "C16": dict(cat="other", ref="DESIGN.md 4/C16",
@@ -43,7 +43,7 @@ CLAIMED = {
    tech="AST->z3 VC generation with reduction/convolution specification axioms (deductive) + bounded native stand-in"),
  "C03": dict(cat="other", ref="DESIGN.md 4/C03",
    text="One symbolic iteration of the real window loop of _process_NP24 (read -> _ind2save -> _split2shanks): the block appended to each shank's AP file is exactly the original int16 samples [a_j,b_j) of that shank's columns + sync, "
-        "for every window index/size, recording length, processed length (init_params(nsamples) <= file length) and shank map; ranges tile [0,ns) (lemma over C17's contract); value exactness under the binary32 rounding model for every volts-per-bit factor; reconstruction loop body scatters every column back; init_params: by default the whole recording, and the window / overlap / taper / ratio the window harnesses assume (a window that is not a multiple of 12 is refused); integer lists of the metadata written back as plain digits (C09 contract re-checked).",
+        "for every window index/size, recording length, processed length (init_params(nsamples) <= file length) and shank map; ranges tile [0,ns) (lemma over C17's contract); value exactness under the binary32 rounding model for every volts-per-bit factor; reconstruction loop body scatters every column back; init_params: by default the whole recording, and the window / overlap / taper / ratio the window harnesses assume (a window that is not a multiple of 12 is refused; for every calibrated sampling rate of the probe); integer lists of the metadata written back as plain digits (C09 contract re-checked).",
    note="Channel lists (where(shank==s)+sync, partition) are a precondition; metadata, channel-subset strings and end-to-end bytes (all 65536 values x catalogued gains, non-contiguous / interleaved shank maps, nsamples < file length, channel-subset strings through a metadata file) are a bounded stand-in on real files. Re-checks C17's generator contract. A-FPSTD for the value obligation.",
    tech="AST->z3 VC generation, generator contract reuse, standard floating-point error model (deductive) + bounded end-to-end"),
  "C12": dict(cat="other", ref="DESIGN.md 4/C12",
@@ -53,7 +53,7 @@ CLAIMED = {
    tech="AST->z3 VC generation with an opaque-filter summary (deductive) + bounded numeric stand-in"),
  "C06": dict(cat="other", ref="DESIGN.md 4/C06",
    text="One symbolic batch of the real per-worker loop (nested my_function located by name, free variables symbolic): file position before each write, rows == kept range with the documented taper margins, sync columns bit-identical, "
-        "saturation slice (flags computed on the calibrated samples as read, before tapering), RMS/timestamp positions, loop invariant position == f(batch index), padding; the worker's start batch and boundary formulas; lemmas: batches tile [0,ns), consecutive workers leave no gap, writes are position-determined.",
+        "saturation slice (flags computed on the calibrated samples as read, before tapering), RMS/timestamp positions, loop invariant position == f(batch index), padding; the same for float32 output with the byte sizes computed by executing the set-up statements (positions in bytes of the output type); the worker's start batch and boundary formulas; lemmas: batches tile [0,ns), consecutive workers leave no gap, writes are position-determined.",
    note="All filtering is opaque (shapes only); saturation() through C16's contract; joblib schedules are not modelled (position-determinism is what is proved); byte identity across worker counts (incl. more workers than batches) / QC lengths via the bounded stand-in with a NumPy/SciPy shim for pyfftw. F-C06-1 (phantom batch) was repaired: a worker whose first batch is not real returns at once, proved to touch nothing and to lose nothing.",
    tech="AST->z3 VC generation on a nested closure with ghost file positions + arithmetic lemmas (deductive) + bounded native stand-in"),
  "C02": dict(cat="other", ref="DESIGN.md 4/C02",
@@ -63,27 +63,27 @@ CLAIMED = {
    tech="AST->z3 VC generation over a ghost file system with exceptional post-conditions (deductive) + bounded native stand-in"),
  "C04": dict(cat="other", ref="DESIGN.md 4/C04",
    text="Contracts of every step of NP2Converter.process over the ghost file system: _prepare_files_NP24 (no-op on repeat, outputs never alias the input, channel lists = where(shank==s)+sync), check_NP24 (every window compared, flag only after the loop; the whole function through the interpreter: every exceptional way out leaves check_completed unset), _prepare_files_NP21 (forced / first run starts the LF output empty), "
-        "epilogue order (original unlinked only after check_NP24 returned normally with both flags), delete_NP24 guard, compress_NP24/NP21 through C02's compress_file incl. failures, early exits (an already split input is refused before any output is prepared, with or without overwrite), init_params reset; rests on C03's init_params contract (every sample is split and verified before the original goes).",
+        "epilogue order (original unlinked only after check_NP24 returned normally with both flags), delete_NP24 guard, compress_NP24/NP21 through C02's compress_file incl. failures, early exits (an already split input is refused before any output is prepared, with or without overwrite; probes that are neither NP2.1 nor NP2.4 - NP1 generations, NP Ultra - are refused untouched), a flag left by an earlier call on the same converter object does not decide the next one, init_params reset; rests on C03's init_params contract (every sample is split and verified before the original goes).",
    note="Histories are handled inductively (one guarded unlink of the original); interruptions = exceptions of external calls; real run histories on files (first/repeat/overwrite/corrupted split/failed verification then delete_NP24()/NP2.1/NP1) are a bounded stand-in. F-C04-1 (retry after partial folder creation) was repaired.",
    tech="AST->z3 VC generation over a ghost file system, effect-log ordering obligations (deductive) + bounded histories"),
  "C13": dict(cat="other", ref="DESIGN.md 4/C13",
    text="extract_wfs_array proved with a loop invariant over the output stack for any number of spikes / channels / samples: wfs[i,c,t] == traces[neighbours[peak_i,c], sample_i - trough + t], padding neighbours read the NaN row, every read in bounds; "
-        "write_wfs_chunk: chunk-local offsets for chunk 0 and later chunks address samples [sample-trough, sample-trough+length) of the recording and rows land at waveform_index, with the caller's trough offset and length; _make_wfs_table (loop iteration + tail, signed and unsigned spike times): each unit gets min(max_wf, #valid) distinct valid spikes, table rows are in bijection with the selected spikes in ascending order, waveform_index is a bijection grouped by unit; make_channel_index: row c = ascending channels within the radius, padded; extract_wfs_cbin: the table is requested with the caller's spikes, count, seed and window offset / length; chunks cover every valid spike once, each job gets its own chunk, rows and the caller's window parameters; the per-unit running index counts 0, 1, 2, ... within each unit (cumulative-sum induction; pandas groupby under an assumed contract).",
+        "write_wfs_chunk: chunk-local offsets for chunk 0 and later chunks address samples [sample-trough, sample-trough+length) of the recording and rows land at waveform_index, with the caller's trough offset and length; _make_wfs_table (loop iteration + tail, signed and unsigned spike times): each unit gets min(max_wf, #valid) distinct valid spikes, table rows are in bijection with the selected spikes in ascending order, waveform_index is a bijection grouped by unit; make_channel_index: row c = ascending channels within the radius, padded with the default or with any caller-supplied value (symbolic pad_val); extract_wfs_cbin: the table is requested with the caller's spikes, count, seed and window offset / length; chunks cover every valid spike once, each job gets its own chunk, rows and the caller's window parameters; the per-unit running index counts 0, 1, 2, ... within each unit (cumulative-sum induction; pandas groupby under an assumed contract).",
    note="Agreement of table / traces / channels / templates after the final re-sort, chunk- and worker-count independence end to end and the loader are a bounded stand-in on generated recordings (joblib threading back end). A-PANDAS; NaN is a token; A-NP-SPEC for sort / argsort(stable) / unique / Generator.choice(replace=False) / flatten; squareform(pdist) = symmetric matrix (A-SCIPY). F-C13-1 (spike index 0 dropped) was repaired.",
    tech="AST->z3 VC generation with a stack loop invariant and index-function arrays (deductive) + bounded native stand-in"),
  "C14": dict(cat="other", ref="DESIGN.md 4/C14",
    text="pick_maximum: reported peak == global absolute extremum, first on ties; find_trough at/after the peak and find_tip strictly before it; recovery_point in bounds with last-sample fall-back; arr_pre_post proved (running-sum induction lemma); half_peak_point: the reported points are the nearest samples on either side of the peak that are back within half of it; "
-        "lemmas: positive scaling and channel permutation leave the arg-max rule invariant - all for symbolic (n, C, T).",
+        "lemmas: positive scaling and channel permutation leave the arg-max rule invariant - all for symbolic (n, C, T); compute_spike_features data flow for 2-D and 3-D input: the documented chain of steps on the table of the step before, recovery offset round(ms * fs / 1000) whatever the input's shape, inversion on a copy of the picked traces, caller's sampling rate.",
    note="A-NP-SPEC argmax / nanargmax / max; The weak-positive swap (pandas row surgery), scale equivariance end to end (incl. exact power-of-two scaling), batch independence and slopes: bounded stand-in on generated bi/tri-phasic spikes. Known finding F-C14-2.",
    tech="AST->z3 VC generation with order-statistics specification axioms (deductive) + bounded native stand-in"),
  "C18": dict(cat="other", ref="DESIGN.md 4/C18",
    text="fourier.convolve: inverse transform asked for the padded length, 'same' = centred crop for both parities, 'full' length; ns_optim_fft: look-up proved over an abstract strictly increasing table, the table's entries and completeness enumerated; freduce/fexpand mutually inverse on Hermitian spectra for both parities and any axis; "
-        "fscale == DFT bin frequencies; lp + hp == 1, bp == hp*lp on the filter vectors; cosine taper monotone in [0,1]; filters keep the shape and every output sample comes from the transforms of the input line through the same position along the requested axis (stated on the data flow, not on which axis the implementation transforms along).",
+        "fscale == DFT bin frequencies; lp + hp == 1, bp == hp*lp on the filter vectors; cosine taper monotone in [0,1]; filters keep the shape and every output sample comes from the transforms of the input line through the same position along the requested axis (stated on the data flow, not on which axis the implementation transforms along); the public lp / hp / bp hand series, interval, corners, axis and type on to the filter.",
    note="A-FFT (shapes, linearity; contents opaque), A-MATH (three facts about cos). Equality with direct convolution / FFT on the impulse basis is a bounded stand-in. F-C18-1 (ns_optim_fft above its table) and F-C18-3 (3-D, axis 0) were repaired.",
    tech="AST->z3 VC generation with FFT shape/Hermitian specification axioms (deductive) + bounded impulse-basis stand-in"),
  "C05": dict(cat="other", ref="DESIGN.md 4/C05",
    text="car: exactly one channel-axis reduction with the requested operator is subtracted, per-collection == per-group; kfilt/fk recursion over collections forwards every setting; kfilt body: gain control only when a window is given, mirrored padding, padding rows dropped and gain multiplied back; destripe data-flow: high-pass -> fshift by +sample_shift along time -> interpolation -> "
-        "spatial filter on rows with label != 3, sync untouched; destripe called twice with the same settings dictionaries: the spatial step and the high-pass get exactly the caller's settings both times and the dictionaries are left as given; agc: out*gain == in wherever the returned gain is not zero, data untouched where it is zero, gain >= 0 (stated on the returned values only).",
+        "spatial filter on rows with label != 3, sync untouched; destripe called twice with the same settings dictionaries: the spatial step and the high-pass get exactly the caller's settings both times and the dictionaries are left as given; agc: out*gain == in wherever the returned gain is not zero, data untouched where it is zero, gain >= 0 (stated on the returned values only); the ADC delay tables destripe re-aligns with: C08's exhaustive table contract re-checked.",
    note="median/mean are opaque reductions with translation equivariance (A-NP-SPEC); butter/sosfiltfilt/fshift/convolve opaque with shapes (A-SCIPY/A-FFT). 40 dB stripe attenuation / 90 % spike retention are numeric: bounded stand-in on synthetic stripes.",
    tech="AST->z3 VC generation with call-log data-flow obligations and modular recursion contracts (deductive) + bounded numeric stand-in"),
  "C07": dict(cat="other", ref="DESIGN.md 4/C07",
